@@ -133,6 +133,18 @@ void h_aux(void)
 		n2 = derTUINTEnc(D2, 0x02, v0, 10);
 		V_ASSERT(n1 == n2 && n1 <= 13 && o_eq(D1, D2, n1), "derTUINTEnc with val inside der == disjoint-buffer result");
 	}
+	/* derTBITEnc: val inside der, every bit length 1..80 (documented: follows derEnc, buffers may overlap) */
+	{
+		V_IN_ARR(octet, b0, 10); V_IN(unsigned char, boff); V_IN(unsigned char, blen);
+		octet D1[24], D2[24];
+		size_t n1, n2;
+		V_TWEAK(boff, boff %= 13); V_TWEAK(blen, blen = 1 + blen % 80);
+		V_ASSUME(boff <= 12 && blen >= 1 && blen <= 80);
+		o_copy(D1 + boff, b0, 10);
+		n1 = derTBITEnc(D1, 0x03, D1 + boff, blen);
+		n2 = derTBITEnc(D2, 0x03, b0, blen);
+		V_ASSERT(n1 == n2 && n1 <= 14 && o_eq(D1, D2, n1), "derTBITEnc with val inside der == disjoint-buffer result");
+	}
 	/* beltKeyExpand: key anywhere around key_ (documented: key and key_ may overlap), lengths 16 and 24 */
 	{
 		V_IN_ARR(octet, kk, 32); V_IN(unsigned char, ko);
